@@ -15,7 +15,8 @@ CLAUSE = {2: "called-without-change", 3: "called-for-rejected-or-read", 4: "chan
 NPOOL, REJ, ALIAS = 14, 9, 10
 POOL_NAMES = ["Eq(1)#a", "Eq(1)#b", "Eq(2)", "nan#a", "nan#b", "EqRaises", "None", "[1]#a", "[1]#b", "rejected", "converted-to-Eq(1)#a",
               "Incoherent", "0", "0.0"]
-MECH = {"any": "StaticAny", "changed": "StaticChanged", "fired": "StaticFired", "otc": "Otc", "obs": "Observe"}
+MECH = {"any": "StaticAny", "changed": "StaticChanged", "fired": "StaticFired", "otc": "Otc", "otcany": "OtcAny",
+        "obs": "Observe"}
 STATIC_ID = {"any": 0, "changed": 1, "fired": 2}
 CMP = {"T": C("CTrue"), "F": C("CFalse"), "R": C("CRaise")}
 
@@ -23,9 +24,10 @@ CMP = {"T": C("CTrue"), "F": C("CFalse"), "R": C("CRaise")}
 # ---------------------------------------------------------------- terms
 def handlers_of(case):
     """Notifier-list order: class-level static wrappers (anytrait, _x_changed, _x_fired — has_traits.py l.626-631),
-    then the dynamic ones in registration order."""
+    then the dynamic ones on the trait in registration order, then the object-level ones (call_notifiers l.2296-2305)."""
     hs = [(STATIC_ID[s], s) for s in ("any", "changed", "fired") if s in case["statics"]]
-    hs += [(10 + i, m) for i, m in enumerate(case["dyn"])]
+    hs += [(10 + i, m) for i, m in enumerate(case["dyn"]) if m != "otcany"]
+    hs += [(10 + i, m) for i, m in enumerate(case["dyn"]) if m == "otcany"]      # the object's notifier list comes last
     return hs
 
 
@@ -52,7 +54,7 @@ def to_term(case, ob):
     cfg = C("mkConfig", Raw("pool_eq"), Raw("pool_ne"), Raw("pool_validate"), Nat(case["default"]), kind, hs)
     h = []
     for op, st in zip(case["ops"], ob["steps"]):
-        o = C("Assign", Nat(op[1])) if op[0] == "Assign" else C("Read")
+        o = C("Assign", Nat(op[1])) if op[0] == "Assign" else C(op[0])
         out = st["out"]
         if case["kind"] == "event" and op[0] == "Read" and out.startswith("Other"):
             out = "Ok"          # anything but AttributeError is wrong for an Event read; Ok triggers clause 1
@@ -87,7 +89,7 @@ def gen_case(rnd, ctx, maxlen):
     mode = rnd.choice(["none", "identity", "equality", "equality"])
     default = rnd.choice([6, 6, 0, 3])
     statics = [s for s in ("any", "changed", "fired") if rnd.random() < 0.5]
-    dyn = [rnd.choice(["otc", "obs"]) for _ in range(rnd.choice([0, 1, 2, 2, 3, 4]))]
+    dyn = [rnd.choice(["otc", "obs", "otc", "obs", "otcany"]) for _ in range(rnd.choice([0, 1, 2, 2, 3, 4]))]
     if not statics and not dyn and rnd.random() < 0.8:
         dyn = ["otc", "obs"]
     ids = [STATIC_ID[s] for s in statics] + [10 + i for i in range(len(dyn))]
@@ -101,7 +103,12 @@ def gen_case(rnd, ctx, maxlen):
             ops.append(["Read"])
             ctx.count("op:Read")
             continue
-        if r < 0.3 and cur is not None:
+        if r < 0.17:
+            ops.append(["Delete"])
+            ctx.count("op:Delete")
+            cur = None
+            continue
+        if r < 0.33 and cur is not None:
             v = cur                                         # the identical object again
         elif r < 0.55 and cur is not None:
             g = next((g for g in groups if cur in g), [cur])
@@ -127,11 +134,14 @@ def gen_case(rnd, ctx, maxlen):
 
 def corpus():
     cs = []
-    allops = [["Read"]] + [["Assign", v] for v in (0, 1, 0, 0, 10, 3, 3, 4, 5, 5, 9, 11, 2, 11, 11, 7, 8, 7, 12, 13, 6, 6, 9)] + [["Read"]]
+    allops = [["Read"]] + [["Assign", v] for v in (0, 1, 0, 0, 10, 3, 3, 4, 5, 5, 9, 11, 2, 11, 11, 7, 8, 7, 12, 13, 6, 6, 9)] + [
+        ["Read"], ["Delete"], ["Delete"], ["Assign", 2], ["Delete"], ["Read"], ["Assign", 6], ["Delete"]]
     for kind, mode in (("normal", "none"), ("normal", "identity"), ("normal", "equality"), ("event", "equality")):
         for raises in ([], [1, 11], [0, 2, 10]):
             cs.append(dict(kind=kind, mode=mode, default=6, statics=["any", "changed", "fired"], dyn=["otc", "obs"],
                            raises=raises, ops=allops))
+            cs.append(dict(kind=kind, mode=mode, default=0, statics=["changed"], dyn=["otcany", "obs", "otc", "otcany"],
+                           raises=[r + 1 for r in raises if r >= 10], ops=allops))
         cs.append(dict(kind=kind, mode=mode, default=0, statics=[], dyn=["obs", "otc", "obs"], raises=[10],
                        ops=[["Assign", 1], ["Assign", 0], ["Read"]]))
         cs.append(dict(kind=kind, mode=mode, default=3, statics=["changed"], dyn=[], raises=[],
@@ -150,10 +160,10 @@ def run(ctx):
         "(trait_property_changed) and `del` are outside the model",
     ]
     ctx.cov["rule"] = ("one case = trait kind (normal with comparison mode none/identity/equality, or Event) x default value x "
-                       "handler mix (static _anytrait_changed/_x_changed/_x_fired, 0-4 on_trait_change/observe handlers in "
+                       "handler mix (static _anytrait_changed/_x_changed/_x_fired, 0-4 on_trait_change(name)/on_trait_change()/observe handlers in "
                        "any registration order, 0-2 of them raising) x history of assignments (identical object again, "
                        "equal-but-not-identical partner, NaN, raising ==, incoherent ==/!=, None, unhashable list, 0/0.0, "
-                       "rejected value, converted value) and reads (first read of the default included); evaluation = one "
+                       "rejected value, converted value) reads (first read of the default included) and `del`; evaluation = one "
                        "operation; non-trivial = some step calls a handler or is refused")
     rnd = random.Random(ctx.seed)
     n, maxlen = (1500, 12) if ctx.tier == "quick" else (40000, 40)
